@@ -301,7 +301,6 @@ Record est := {
   s_stored : Z;                       (* items of request bodies present in the storage *)
   s_shut : Z;                         (* items of exports that ended with the shutdown error *)
   s_kept : Z;                         (* items of requests left in storage by a shutdown-class OnDone *)
-  s_wfr_failed : Z;                   (* items of wait-for-result offers that returned the export error *)
   s_gauges : list Z;                  (* queue-size gauge readings *)
   s_sends : list Z                    (* what each Send through a queue returned: 0 nil | 1 ErrQueueIsFull |
                                          2 errSizeTooLarge | 4 the Encoding's marshal error (persistent queue) |
@@ -312,13 +311,12 @@ Record est := {
 Definition set_led (st : est) (l : ledger) : est :=
   {| s_led := l; s_outs := s_outs st; s_next := s_next st; s_queue := s_queue st; s_qsize := s_qsize st;
      s_ref := s_ref st; s_cur := s_cur st; s_flushq := s_flushq st; s_hung := s_hung st; s_down := s_down st;
-     s_offered := s_offered st; s_stored := s_stored st; s_shut := s_shut st; s_kept := s_kept st;
-     s_wfr_failed := s_wfr_failed st; s_gauges := s_gauges st; s_sends := s_sends st |}.
+     s_offered := s_offered st; s_stored := s_stored st; s_shut := s_shut st; s_kept := s_kept st; s_gauges := s_gauges st; s_sends := s_sends st |}.
 
 Definition init_est (outs : list aout) : est :=
   {| s_led := []; s_outs := outs; s_next := O; s_queue := []; s_qsize := 0; s_ref := []; s_cur := None;
      s_flushq := []; s_hung := None; s_down := false; s_offered := 0; s_stored := 0; s_shut := 0;
-     s_kept := 0; s_wfr_failed := 0; s_gauges := []; s_sends := [] |}.
+     s_kept := 0; s_gauges := []; s_sends := [] |}.
 
 Section Exporter.
   Variable o : eopts.
@@ -329,21 +327,21 @@ Section Exporter.
   Definition is_wfr : bool := match qc with Some c => q_wfr c | None => false end.
   Definition batch_cfg : option (Z * Z) := match qc with Some c => q_batch c | None => None end.
 
-  (* memory_queue.go onDone / persistent_queue.go onDone, and obs_queue.go Offer's error branch
-     when the offer was waiting for the result *)
+  (* memory_queue.go onDone / persistent_queue.go onDone.  With wait_for_result the blocked Offer returns the
+     result wrapped in acceptedError; obs_queue.go Offer recognises it, counts NO enqueue failure and hands the
+     wrapped error itself back to the caller (repo fix af774a6ec: before, a failed export was counted
+     send_failed and enqueue_failed) *)
   Definition on_done (d : done) (r : eres) (st : est) : est :=
     let qs := if is_storage then Z.max 0 (s_qsize st - d_el d) else s_qsize st - d_el d in
     let del := is_storage && negb (eres_is_shutdown r) in
     let keep := is_storage && eres_is_shutdown r in
-    let wf := is_wfr && negb (eres_is_ok r) in
-    {| s_led := if wf then s_led st ++ obs_enqueue_failed sg (d_items d) else s_led st;
+    {| s_led := s_led st;
        s_outs := s_outs st; s_next := s_next st; s_queue := s_queue st; s_qsize := qs;
        s_ref := s_ref st; s_cur := s_cur st; s_flushq := s_flushq st; s_hung := s_hung st; s_down := s_down st;
        s_offered := s_offered st;
        s_stored := if del then s_stored st - d_items d else s_stored st;
        s_shut := s_shut st;
        s_kept := if keep then s_kept st + d_items d else s_kept st;
-       s_wfr_failed := if wf then s_wfr_failed st + d_items d else s_wfr_failed st;
        s_gauges := s_gauges st; s_sends := s_sends st |}.
 
   (* multierr.Append(acc, err) seen through experr.IsShutdownErr / == nil *)
@@ -370,8 +368,7 @@ Section Exporter.
   Definition set_ref (st : est) (r : list (nat * (done * (Z * eres)))) : est :=
     {| s_led := s_led st; s_outs := s_outs st; s_next := s_next st; s_queue := s_queue st; s_qsize := s_qsize st;
        s_ref := r; s_cur := s_cur st; s_flushq := s_flushq st; s_hung := s_hung st; s_down := s_down st;
-       s_offered := s_offered st; s_stored := s_stored st; s_shut := s_shut st; s_kept := s_kept st;
-       s_wfr_failed := s_wfr_failed st; s_gauges := s_gauges st; s_sends := s_sends st |}.
+       s_offered := s_offered st; s_stored := s_stored st; s_shut := s_shut st; s_kept := s_kept st; s_gauges := s_gauges st; s_sends := s_sends st |}.
 
   (* Done.OnDone(err): a plain queue Done, or a refCountDone in front of it *)
   Definition fire (r : eres) (st : est) (d : done) : est :=
@@ -395,8 +392,7 @@ Section Exporter.
     | (XHung, outs') =>
         {| s_led := s_led st; s_outs := outs'; s_next := s_next st; s_queue := s_queue st; s_qsize := s_qsize st;
            s_ref := s_ref st; s_cur := s_cur st; s_flushq := s_flushq st; s_hung := Some f; s_down := s_down st;
-           s_offered := s_offered st; s_stored := s_stored st; s_shut := s_shut st; s_kept := s_kept st;
-           s_wfr_failed := s_wfr_failed st; s_gauges := s_gauges st; s_sends := s_sends st |}
+           s_offered := s_offered st; s_stored := s_stored st; s_shut := s_shut st; s_kept := s_kept st; s_gauges := s_gauges st; s_sends := s_sends st |}
     | (XDone r, outs') =>
         fire_all r ds
           {| s_led := s_led st ++ obs_end_op (o_tracing o) sg items r; s_outs := outs'; s_next := s_next st;
@@ -404,20 +400,18 @@ Section Exporter.
              s_flushq := s_flushq st; s_hung := s_hung st; s_down := s_down st;
              s_offered := s_offered st; s_stored := s_stored st;
              s_shut := if eres_is_shutdown r then s_shut st + items else s_shut st;
-             s_kept := s_kept st; s_wfr_failed := s_wfr_failed st; s_gauges := s_gauges st; s_sends := s_sends st |}
+             s_kept := s_kept st; s_gauges := s_gauges st; s_sends := s_sends st |}
     end.
 
   Definition set_flushq (st : est) (q : list flushrec) : est :=
     {| s_led := s_led st; s_outs := s_outs st; s_next := s_next st; s_queue := s_queue st; s_qsize := s_qsize st;
        s_ref := s_ref st; s_cur := s_cur st; s_flushq := q; s_hung := s_hung st; s_down := s_down st;
-       s_offered := s_offered st; s_stored := s_stored st; s_shut := s_shut st; s_kept := s_kept st;
-       s_wfr_failed := s_wfr_failed st; s_gauges := s_gauges st; s_sends := s_sends st |}.
+       s_offered := s_offered st; s_stored := s_stored st; s_shut := s_shut st; s_kept := s_kept st; s_gauges := s_gauges st; s_sends := s_sends st |}.
 
   Definition set_cur (st : est) (c : option flushrec) : est :=
     {| s_led := s_led st; s_outs := s_outs st; s_next := s_next st; s_queue := s_queue st; s_qsize := s_qsize st;
        s_ref := s_ref st; s_cur := c; s_flushq := s_flushq st; s_hung := s_hung st; s_down := s_down st;
-       s_offered := s_offered st; s_stored := s_stored st; s_shut := s_shut st; s_kept := s_kept st;
-       s_wfr_failed := s_wfr_failed st; s_gauges := s_gauges st; s_sends := s_sends st |}.
+       s_offered := s_offered st; s_stored := s_stored st; s_shut := s_shut st; s_kept := s_kept st; s_gauges := s_gauges st; s_sends := s_sends st |}.
 
   (* the single worker (workerPool of size 1 / the single consumer) runs the waiting flushes in
      order until one hangs in the back-off *)
@@ -472,8 +466,12 @@ Section Exporter.
             match l with
             | [] => fire ROk st d
             | first :: rest =>
-                let st1 := with_ref st d l in
-                let cur' := (first, cd ++ [d]) in
+                (* repo fix 6f74b829b: when the request had to be split and nothing of it fitted beside the items
+                   already batched (the first result still has exactly the old item count), the first batch gets
+                   no Done of this request and the refCount is one less *)
+                let first_holds_new := negb (1 <? Z.of_nat (length l)) || negb (first =? ci) in
+                let st1 := with_ref st d (if first_holds_new then l else rest) in
+                let cur' := (first, if first_holds_new then cd ++ [d] else cd) in
                 let flush_first := (1 <? Z.of_nat (length l)) || (mn <=? first) in
                 let st2 := if flush_first then push_flushes (set_cur st1 None) [cur'] else set_cur st1 (Some cur') in
                 match rest with
@@ -501,8 +499,7 @@ Section Exporter.
         consume
           {| s_led := s_led st; s_outs := s_outs st; s_next := s_next st; s_queue := t; s_qsize := qs;
              s_ref := s_ref st; s_cur := s_cur st; s_flushq := s_flushq st; s_hung := s_hung st; s_down := s_down st;
-             s_offered := s_offered st; s_stored := s_stored st; s_shut := s_shut st; s_kept := s_kept st;
-             s_wfr_failed := s_wfr_failed st; s_gauges := s_gauges st; s_sends := s_sends st |}
+             s_offered := s_offered st; s_stored := s_stored st; s_shut := s_shut st; s_kept := s_kept st; s_gauges := s_gauges st; s_sends := s_sends st |}
           {| d_id := id; d_el := el_size n; d_items := n |}
     end.
 
@@ -535,8 +532,7 @@ Section Exporter.
   Definition add_offered (st : est) (n : Z) : est :=
     {| s_led := s_led st; s_outs := s_outs st; s_next := s_next st; s_queue := s_queue st; s_qsize := s_qsize st;
        s_ref := s_ref st; s_cur := s_cur st; s_flushq := s_flushq st; s_hung := s_hung st; s_down := s_down st;
-       s_offered := s_offered st + n; s_stored := s_stored st; s_shut := s_shut st; s_kept := s_kept st;
-       s_wfr_failed := s_wfr_failed st; s_gauges := s_gauges st; s_sends := s_sends st |}.
+       s_offered := s_offered st + n; s_stored := s_stored st; s_shut := s_shut st; s_kept := s_kept st; s_gauges := s_gauges st; s_sends := s_sends st |}.
 
   (* accept into the queue: memoryQueue.add / persistentQueue.putInternal after the capacity check *)
   Definition accept (st : est) (n : Z) : est :=
@@ -545,7 +541,7 @@ Section Exporter.
        s_ref := s_ref st; s_cur := s_cur st; s_flushq := s_flushq st; s_hung := s_hung st; s_down := s_down st;
        s_offered := s_offered st;
        s_stored := if is_storage then s_stored st + n else s_stored st;
-       s_shut := s_shut st; s_kept := s_kept st; s_wfr_failed := s_wfr_failed st; s_gauges := s_gauges st; s_sends := s_sends st |}.
+       s_shut := s_shut st; s_kept := s_kept st; s_gauges := s_gauges st; s_sends := s_sends st |}.
 
   Definition reject (st : est) (n : Z) : est := set_led st (s_led st ++ obs_enqueue_failed sg n).
 
@@ -556,8 +552,7 @@ Section Exporter.
     if is_wfr then st else
     {| s_led := s_led st; s_outs := s_outs st; s_next := s_next st; s_queue := s_queue st; s_qsize := s_qsize st;
        s_ref := s_ref st; s_cur := s_cur st; s_flushq := s_flushq st; s_hung := s_hung st; s_down := s_down st;
-       s_offered := s_offered st; s_stored := s_stored st; s_shut := s_shut st; s_kept := s_kept st;
-       s_wfr_failed := s_wfr_failed st; s_gauges := s_gauges st; s_sends := s_sends st ++ [k] |}.
+       s_offered := s_offered st; s_stored := s_stored st; s_shut := s_shut st; s_kept := s_kept st; s_gauges := s_gauges st; s_sends := s_sends st ++ [k] |}.
 
   (* memoryQueue.add / persistentQueue.putInternal when there is no room: without block_on_overflow
      ErrQueueIsFull; with it the producer waits on hasMoreSpace.Wait(ctx) - in the sequential schedules of
@@ -588,8 +583,7 @@ Section Exporter.
   Definition gauge (st : est) : est :=
     {| s_led := s_led st; s_outs := s_outs st; s_next := s_next st; s_queue := s_queue st; s_qsize := s_qsize st;
        s_ref := s_ref st; s_cur := s_cur st; s_flushq := s_flushq st; s_hung := s_hung st; s_down := s_down st;
-       s_offered := s_offered st; s_stored := s_stored st; s_shut := s_shut st; s_kept := s_kept st;
-       s_wfr_failed := s_wfr_failed st; s_gauges := s_gauges st ++ [s_qsize st]; s_sends := s_sends st |}.
+       s_offered := s_offered st; s_stored := s_stored st; s_shut := s_shut st; s_kept := s_kept st; s_gauges := s_gauges st ++ [s_qsize st]; s_sends := s_sends st |}.
 
   (* defaultBatcher.flushCurrentBatchIfNecessary (timer goroutine / Shutdown) *)
   Definition flush_cur (st : est) : est :=
@@ -602,7 +596,10 @@ Section Exporter.
   | OOffer (n : Z)           (* one Send, then the pipeline runs to quiescence; with wait_for_result the
                                 flush timer fires before Send returns *)
   | OBurst (ns : list Z)     (* pusher gate closed; Sends; gauges read; gate opened; run to quiescence *)
-  | OFlush.                  (* the batcher's flush timer fires *)
+  | OFlush                   (* the batcher's flush timer fires *)
+  | OBurstShut (ns : list Z). (* pusher gate closed; Sends; gauges read; then Shutdown is called - with a context that
+                                expires while the gate is still closed: the code does not look at it - and only then the
+                                gate is opened: everything queued is exported under the closed stopCh (last operation) *)
 
   Definition step (st : est) (op : eop) : est :=
     match op with
@@ -614,13 +611,14 @@ Section Exporter.
         let st1 := fold_left (fun s n => let s' := offer s n in pump_closed (S (length (s_queue s'))) s') ns st in
         run_quiet (gauge st1)
     | OFlush => gauge (run_quiet (flush_cur st))
+    | OBurstShut ns =>
+        gauge (fold_left (fun s n => let s' := offer s n in pump_closed (S (length (s_queue s'))) s') ns st)
     end.
 
   Definition set_down (st : est) : est :=
     {| s_led := s_led st; s_outs := s_outs st; s_next := s_next st; s_queue := s_queue st; s_qsize := s_qsize st;
        s_ref := s_ref st; s_cur := s_cur st; s_flushq := s_flushq st; s_hung := s_hung st; s_down := true;
-       s_offered := s_offered st; s_stored := s_stored st; s_shut := s_shut st; s_kept := s_kept st;
-       s_wfr_failed := s_wfr_failed st; s_gauges := s_gauges st; s_sends := s_sends st |}.
+       s_offered := s_offered st; s_stored := s_stored st; s_shut := s_shut st; s_kept := s_kept st; s_gauges := s_gauges st; s_sends := s_sends st |}.
 
   (* the hung export is released by stopCh: it returns experr.NewShutdownErr *)
   Definition release_hung (st : est) : est :=
@@ -632,7 +630,7 @@ Section Exporter.
              s_queue := s_queue st; s_qsize := s_qsize st; s_ref := s_ref st; s_cur := s_cur st;
              s_flushq := s_flushq st; s_hung := None; s_down := s_down st;
              s_offered := s_offered st; s_stored := s_stored st; s_shut := s_shut st + items;
-             s_kept := s_kept st; s_wfr_failed := s_wfr_failed st; s_gauges := s_gauges st; s_sends := s_sends st |}
+             s_kept := s_kept st; s_gauges := s_gauges st; s_sends := s_sends st |}
     end.
 
   (* BaseExporter.Shutdown: RetrySender.Shutdown (close stopCh), QueueSender.Shutdown =
